@@ -41,6 +41,21 @@ CHECKS = {
  "C11": ("exploration", "property-based testing: timeline relations inside and across generated segmentations",
          "In-segment deltas, signed composition offsets, non-sync flags, base decode time monotonicity/non-overlap/constant origin and init byte-stability.",
          "Constant-origin clause only judged for constant-interval input with >= 2 samples per segment, as the property states.", "3/C11"),
+ "C13": ("fault_enumeration", "fault-injection enumeration over generated histories: scripted Write sink failing at every call index x 7 modes and every byte offset, plus generated short-write/Interrupted schedules",
+         "For each generated small history every sink write call and every output byte offset is a fault point (exhaustive per history); clauses: no panic, Err iff a write ultimately failed, accepted bytes are a prefix of the fault-free file, nothing written and no call succeeding after the finish, benign schedules are transparent.",
+         "Trusted: std write_all semantics; unbounded Interrupted runs are not generated.", "3/C13"),
+ "C14": ("exploration", "exhaustive small-scope enumeration + property-based testing against an independent reference splitter; ADTS lengths enumerated exhaustively and read back from muxed files",
+         "All strings over {00,01,03,AB} up to length 10 (quick) / 13 (thorough) and all 8192 ADTS lengths x flag x buffer relation are enumerated; constructive NAL lists and random biased strings are generated.",
+         "Sub-spaces are exhaustive, the property as a whole (all byte strings) is explored. Zero-payload ADTS excluded while that finding is open.", "3/C14"),
+ "C16": ("exploration", "boundary-directed property-based testing: generators straddling 2^8/2^16/2^31/2^32/2^53/2^64, exact recomputation of every numeric field or a justified error",
+         "Either a call fails and the value really does not fit, or every field read back equals the exact value from the history. Nine narrowing sites are listed open findings by signature. 4 GiB limits are not explored.",
+         "Trusted: exact tick arithmetic; reader field widths per version.", "3/C16"),
+ "C18": ("exploration", "exhaustive enumeration (all 26^3 language codes; key days of every year quick / every day 1970-9999 thorough) + property-based titles with a metadata/no-metadata differential",
+         "Independent civil-from-days calendar, 5-bit language unpacking, udta decoder; isolation by differential description.",
+         "ISO-8601 claimed to year 9999; beyond only termination (10 s deadline).", "3/C18"),
+ "C19": ("exploration", "property-based testing over configurations with strict specification-derived decoders per box and record",
+         "Every fixed-layout box/record of progressive files, init segments and media segments is decoded strictly (size, version, flags, reserved bits, positions). The progressive tkhd length/flags deviations are listed open findings; its remaining fields are still judged at the shifted positions.",
+         "Trusted: my reading of ISO/IEC 14496-12/-14/-15 and the AV1/VP9/Opus bindings (appendix A of DESIGN.md).", "3/C19"),
 }
 NOT_YET = {
 }
